@@ -56,6 +56,8 @@ class Include(DirectivePlugin):
             new_state = block.state_cls()
             # the included blocks stand where the directive stands: they count against the same nesting limit
             new_state.parent = state.parent
+            # link reference definitions of an included file belong to the document: one table, first definition wins
+            new_state.env["ref_links"] = state.env["ref_links"]
             new_state.env["__file__"] = dest
             new_state.env["__including__"] = including + [source_file]
             # the same line-ending normalisation that Markdown.parse applies to the document itself
